@@ -36,7 +36,7 @@ def fixture_classes(tier: str, seed: int):
     out = []
     strategies = [W.Expand(), W.ExpandTrim(), W.ExpandTrimRename(), W.RemoveFront(), W.RemoveFrontHidden(), W.RemoveFrontRename(), W.SplitFront(),
                   W.SplitMonotone(), W.Swap(),
-                  W.MinimizePatterns(), W.MergeStats(), W.RenameStats(), W.EmptyThenRename(), W.ExpandMerge(), W.RemoveFrontMerge()]
+                  W.MinimizePatterns(), W.MergeStats(), W.RenameStats(), W.EmptyThenRename(), W.ExpandMerge(), W.RemoveFrontMerge(), W.RemoveFrontLax()]
     for pats in pats_ab:
         for pre in prefixes:
             for st in stats:
@@ -76,7 +76,7 @@ def fixture_classes(tier: str, seed: int):
     rnd.shuffle(out)
     if tier == "quick":
         # the strategies that exist for one specific mechanism are never sampled away
-        special = ("SplitMonotone", "ExpandTrim", "ExpandTrimRename", "RemoveFrontHidden", "RemoveFrontRename", "RenameStats", "SplitFront", "Cycle", "MergeStats", "EmptyThenRename", "ExpandMerge", "RemoveFrontMerge")
+        special = ("SplitMonotone", "ExpandTrim", "ExpandTrimRename", "RemoveFrontHidden", "RemoveFrontRename", "RenameStats", "SplitFront", "Cycle", "MergeStats", "EmptyThenRename", "ExpandMerge", "RemoveFrontMerge", "RemoveFrontLax")
         first = [x for x in out if type(x[1]).__name__ in special]
         per = {}
         keep = []
